@@ -836,7 +836,7 @@ Ltac dec_len d :=
   | (if negb (?x =? ?y)%N then _ else _) = _ => destruct (N.eqb_spec x y) as [E|E]; cbn [negb] in H; [|discriminate H]
   end.
 
-Theorem dec_length_checked :
+Definition decoders_length_checked : Prop :=
   (forall key v, session_IDFromSessionForSubscriptionKey key = Ok v -> key_len key = 17%N) /\
   (forall key v, subscription_IDFromSubscriptionForPlanKey key = Ok v -> key_len key = 17%N) /\
   (forall key v, session_IDFromSessionForInactiveAtKey key = Ok v -> key_len key = 38%N) /\
@@ -855,8 +855,10 @@ Theorem dec_length_checked :
   (forall key v, node_AddressFromNodeForInactiveAtKey key = Ok v -> exists l, key_at key 30 = Ok l /\ key_len key = (31 + l)%N) /\
   (forall key v, subscription_IDFromPayoutForAccountByNodeKey key = Ok v ->
      exists l1 l2, key_at key 1 = Ok l1 /\ key_at key (2 + l1) = Ok l2 /\ key_len key = (11 + l1 + l2)%N).
+
+Theorem dec_length_checked : decoders_length_checked.
 Proof.
-  repeat split.
+  unfold decoders_length_checked. repeat split.
   - dec_len session_IDFromSessionForSubscriptionKey. exact E.
   - dec_len subscription_IDFromSubscriptionForPlanKey. exact E.
   - dec_len session_IDFromSessionForInactiveAtKey. exact E.
